@@ -391,6 +391,18 @@ def _children(ck: Checker, rule: str = "C17.children") -> None:
         for y in body:
             v = norm(y.ast.value)
             okd = "isdir=True" in v and "loaded=True" in v
+            # ... for EVERY collected prefix: the store is on every path through the loop body (a skip is accepted only
+            # for a key that is already an ENTRY of the trie - `key in trie` - never for a mere node: the children stored
+            # just above make every prefix a node)
+            def _known_entry(t, lab):
+                if t.kind != "test" or not isinstance(t.ast, ast.Compare) or len(t.ast.ops) != 1 or norm(t.ast.comparators[0]) != "trie":
+                    return False
+                return (isinstance(t.ast.ops[0], ast.In) and lab == "T") or (isinstance(t.ast.ops[0], ast.NotIn) and lab == "F")
+
+            rr_ = g.reach([d for lab, d in x.succ if lab == "T"], skip_node=lambda q, y=y: q.id == y.id, skip_edge=lambda p_, l_, q_: l_ == "exc" or _known_entry(p_, l_))
+            ck.require(x.id not in rr_, rule, fn, y, "every collected prefix gets its directory entry",
+                       "a collected prefix can be skipped without its directory entry being stored (e.g. `if trie.has_node(key): continue` - true for every prefix once the children are stored): nested directories of a listing have no entry, checkout never converges (they are listed for deletion again and again)",
+                       witness=g.fmt_path(g.path_to(rr_, x.id)) if x.id in rr_ else None, construct=f"for {norm(x.ast.target)} in dirs / always stored")
     ck.require(okd, rule, fn, dl[0] if dl else fn.node, "implicit directories are stored as loaded directory entries", "implicit directory entries are not stored as Meta(isdir=True), loaded=True", construct="for dkey in dirs: trie[...] = DataIndexEntry(isdir, loaded)")
 
 
